@@ -41,6 +41,8 @@ type c14event struct {
 	Mo   int      `json:"mo"`
 	Mr   int      `json:"mr"`
 	Same bool     `json:"same"` // the re-parsed expression is structurally identical to the original (reflect.DeepEqual)
+	Eos  []string `json:"eos"`  // distinct results of evaluating the original several times (Get may depend on map order)
+	Ers  []string `json:"ers"`  // the same for the re-parsed expression
 	Case *c14case `json:"case"`
 }
 
@@ -82,6 +84,20 @@ func safeGet(x jp.Expr, doc any) (res []string) {
 	return canon(x.Get(doc))
 }
 
+// distinctGets evaluates several times and returns the distinct results (each a joined bag).
+func distinctGets(x jp.Expr, doc any) []string {
+	seen := map[string]bool{}
+	for i := 0; i < 6; i++ {
+		seen[strings.Join(safeGet(x, doc), "\x1f")] = true
+	}
+	out := make([]string, 0, len(seen))
+	for k := range seen {
+		out = append(out, k)
+	}
+	sort.Strings(out)
+	return out
+}
+
 func safeStr(f func() string) (s string, perr string) {
 	defer func() {
 		if r := recover(); r != nil {
@@ -94,7 +110,7 @@ func safeStr(f func() string) (s string, perr string) {
 func runC14(c *c14case) []*c14event {
 	var evs []*c14event
 	mk := func(form string) *c14event {
-		return &c14event{K: c.K, Cell: c.Cell, Form: form, Ast: c.Ast, Elem: c.Elem, Mo: -1, Mr: -1, Case: c, S1: []int{}, S2: []int{}, Eo: []string{}, Er: []string{}}
+		return &c14event{K: c.K, Cell: c.Cell, Form: form, Ast: c.Ast, Elem: c.Elem, Mo: -1, Mr: -1, Case: c, S1: []int{}, S2: []int{}, Eo: []string{}, Er: []string{}, Eos: []string{}, Ers: []string{}}
 	}
 	if c.K == "path" {
 		var x jp.Expr
@@ -118,6 +134,7 @@ func runC14(c *c14case) []*c14event {
 			})
 			ev.S1 = ints(s1)
 			ev.Eo = safeGet(x, doc)
+			ev.Eos = distinctGets(x, doc)
 			if perr != "" {
 				ev.Perr, ev.Pmsg = 2, perr
 			} else if y, err := jp.ParseString(s1); err != nil {
@@ -131,6 +148,7 @@ func runC14(c *c14case) []*c14event {
 				})
 				ev.S2 = ints(s2)
 				ev.Er = safeGet(y, doc)
+				ev.Ers = distinctGets(y, doc)
 				ev.Same = reflect.DeepEqual(x, y)
 			}
 			evs = append(evs, ev)
@@ -163,6 +181,7 @@ func runC14(c *c14case) []*c14event {
 		ev.S1 = ints(s1)
 		ev.Mo = match(func() bool { return c.Ast.Build().Script().Match(elem) })
 		ev.Eo = []string{fmt.Sprint(ev.Mo)}
+		ev.Eos = ev.Eo
 		if perr != "" {
 			ev.Perr, ev.Pmsg = 2, perr
 			evs = append(evs, ev)
@@ -197,6 +216,7 @@ func runC14(c *c14case) []*c14event {
 			ev.S2 = ints(s2)
 			ev.Mr = match(re)
 			ev.Er = []string{fmt.Sprint(ev.Mr)}
+			ev.Ers = ev.Er
 		}
 		evs = append(evs, ev)
 	}
